@@ -29,8 +29,7 @@ RULE = ("kernel level: the full tie grid (every end point, every value exactly o
         "finite / infinite / per-dimension end points, rectangular and trapezoidal shapes, alpha and Huber parameters from a grid, all "
         "request spellings, NaN injected) plus a malformed stream; a case is distinct by the hash of (function, inputs, options) and "
         "non-trivial when it yields a finite value or exercises an error path")
-ASSUMPTIONS = ["random cases: fcst, obs and end-point arrays store shared coordinates in one common (shuffled) order; other orders are covered by deterministic cases (end-point arrays: recorded finding tw-endpoint-array-coord-order)",
-               "each end-point pair is given as two scalars, two arrays, or (scalar, array) -- (array, scalar) is the recorded finding tw-endpoint-array-scalar"]
+ASSUMPTIONS = ["labelled inputs carry identical label sets along shared dimensions (storage order, dimension order and scalar / array end points vary freely)"]
 TRUSTED = ["R-level theorems (coq/proofs/C10_RInt*.v): Coq Reals + Coquelicot 3.x and their standard axioms, as listed per theorem"]
 
 INF = float("inf")
@@ -132,12 +131,17 @@ def gen_ends(rng, sizes, perms, trap, bad=False):
             return v
         da = xr.DataArray(np.array(vals, dtype=float).reshape([esz[x] for x in edims]), dims=edims,
                           coords={x: list(range(esz[x])) for x in edims})
-        return da.isel({x: pm[x] for x in edims})
+        # every end-point array in its own storage order (repaired by 471de49 / aeac0ee: aligned with the data by label)
+        return da.isel({x: rng.sample(range(esz[x]), esz[x]) for x in edims})
 
     def pair(u, v):
-        if mode == "mixed" and rng.random() < 0.5 and edims:
-            # (scalar, array): the code converts both when the first is a Python number
-            return (u[0], arr(v, False)) if all(x == u[0] for x in u) else (arr(u, False), arr(v, False))
+        if mode == "mixed" and edims:
+            # (scalar, array) and (array, scalar): both members are converted when either is a Python number (7c177ef)
+            if all(x == u[0] for x in u) and rng.random() < 0.6:
+                return (u[0], arr(v, False))
+            if all(x == v[0] for x in v):
+                return (arr(u, False), v[0])
+            return (arr(u, False), arr(v, False))
         su = arr(u, True)
         sv = arr(v, True)
         if not edims and isinstance(su, int) != isinstance(sv, int):
@@ -154,9 +158,10 @@ def gen_case(ctx, bad=False):
     rng = ctx.rng
     sizes = gens.rand_sizes(rng)
     perms = {d: rng.sample(range(sizes[d]), sizes[d]) for d in sizes}
+    operms = {d: rng.sample(range(sizes[d]), sizes[d]) for d in sizes}      # obs in its own storage order (5f9b684)
     fcst = mk(rng, sizes, sizes, perms, nan_p=0.12 if rng.random() < 0.4 else 0.0)
     odims = gens.sub_dims(rng, sizes, p_drop=0.25)
-    obs = mk(rng, sizes, odims, perms, nan_p=0.12 if rng.random() < 0.3 else 0.0)
+    obs = mk(rng, sizes, odims, operms, nan_p=0.12 if rng.random() < 0.3 else 0.0)
     if rng.random() < 0.4:
         obs = gens.force_ties(rng, fcst, obs)
     w = None
@@ -201,6 +206,89 @@ def desc_case(c):
         return None if t is None else [gens.da_repr(x) for x in t]
     return {"fn": c["fn"], "fcst": gens.da_repr(c["fcst"]), "obs": gens.da_repr(c["obs"]), "param": c["param"], "interval_where_one": e(c["one"]),
             "interval_where_positive": e(c["pos"]), "reduce_dims": c["rd"], "preserve_dims": c["pd"], "weights": gens.da_repr(c["w"])}
+
+
+# ------------------------------------------------------------------------------------------
+# exact-rational oracle of the documented formulas (independent of the Coq model: used by run_without_model, and
+# cross-checked against the model's specification entry whenever the model is available)
+# ------------------------------------------------------------------------------------------
+def orc_g(ends, x):
+    if len(ends) == 2:
+        a, b = ends
+        return Fr(0) if x < a else (x - a if x < b else b - a)
+    a, b, c, d = ends
+    if x < a:
+        return Fr(0)
+    if x < b:
+        return (x - a) ** 2 / (2 * (b - a))
+    if x < c:
+        return x - (a + b) / 2
+    if x < d:
+        return -(d - x) ** 2 / (2 * (d - c)) + (d + c - a - b) / 2
+    return (d + c - a - b) / 2
+
+
+def orc_phi(ends, x):
+    if len(ends) == 2:
+        a, b = ends
+        return Fr(0) if x < a else (2 * (x - a) ** 2 if x < b else 4 * (b - a) * x + 2 * (a * a - b * b))
+    a, b, c, d = ends
+    k = 2 * ((b - a) ** 2 + 3 * a * b - (d - c) ** 2 - 3 * c * d) / 3
+    if x < a:
+        return Fr(0)
+    if x < b:
+        return 2 * (x - a) ** 3 / (3 * (b - a))
+    if x < c:
+        return 2 * x * x - 2 * (a + b) * x + 2 * (b - a) ** 2 / 3 + 2 * a * b
+    if x < d:
+        return 2 * (d - x) ** 3 / (3 * (d - c)) + 2 * (d + c - a - b) * x + k
+    return 2 * (d + c - a - b) * x + k
+
+
+def orc_losses(alpha, v, f, o):
+    """squared error, absolute error, pinball, asymmetric squared error, Huber loss"""
+    w = (1 - alpha) if o < f else alpha
+    d = abs(f - o)
+    return [d * d, d, w * d, w * d * d, d * d / 2 if d <= v else v * (d - v / 2)]
+
+
+def orc_tw(ends, alpha, v, f, o):
+    """the five tw_* values at one point for finite end points (Taggart 2022, eq. 8, 10, 11 with Table B1); ends = () -> unweighted"""
+    if not ends:
+        return orc_losses(alpha, v, f, o)
+    g = lambda x: orc_g(ends, x)          # noqa: E731
+    phi = lambda x: orc_phi(ends, x)      # noqa: E731
+    phip = lambda x: 4 * g(x)             # noqa: E731
+
+    def cq(al):
+        return (1 - al) * (g(f) - g(o)) if o < f else al * (g(o) - g(f))
+
+    def ce(al):
+        return ((1 - al) if o < f else al) * (phi(o) - phi(f) - phip(f) * (o - f))
+    k = max(-v, min(f - o, v))
+    ch = Fr(1, 2) * (phi(o) - phi(k + o) + k * phip(f))
+    return [ce(Fr(1, 2)), 2 * cq(Fr(1, 2)), cq(alpha), ce(alpha) / 2, ch / 2]
+
+
+def table_b1_oracle(ctx):
+    """the private helpers against the exact oracle on the tie grid (every end point, values next to end points)"""
+    T = TW()
+    xs = [Fr(k, 2) for k in range(-7, 12)]
+    X = xr.DataArray([float(x) for x in xs], dims="x")
+    sets = [(Fr(a), Fr(b)) for a, b in [(-2, 1), (0, 2), (Fr(1, 2), 1), (-3, Fr(-1, 2)), (1, 4)]]
+    sets += [tuple(Fr(v) for v in q) for q in [(-2, -1, 1, 3), (0, Fr(1, 2), 1, 2), (-3, -1, 0, Fr(1, 2)), (Fr(-1, 2), 1, Fr(5, 2), 3), (1, 2, 3, 5)]]
+    for ends in sets:
+        fe = [float(e) for e in ends]
+        sfx = "rect" if len(ends) == 2 else "trap"
+        got = {"g": getattr(T, f"_g_j_{sfx}")(*fe, X).values, "phi": getattr(T, f"_phi_j_{sfx}")(*fe, X).values,
+               "phi'": getattr(T, f"_phi_j_prime_{sfx}")(*fe, X).values}
+        for i, x in enumerate(xs):
+            want = {"g": orc_g(ends, x), "phi": orc_phi(ends, x), "phi'": 4 * orc_g(ends, x)}
+            ctx.case(("b1", ends, x))
+            for nm in want:
+                if not core.close(got[nm][i], want[nm]):
+                    ctx.violation(f"{nm}_j_{sfx} differs from row of Table B1", {"ends": ends, "x": x}, want[nm], float(got[nm][i]))
+    ctx.count("table_b1_oracle_points", len(sets) * len(xs))
 
 
 # ------------------------------------------------------------------------------------------
@@ -335,9 +423,10 @@ def consistent_grid(ctx):
 # ------------------------------------------------------------------------------------------
 # property predicates on the implementation
 # ------------------------------------------------------------------------------------------
-def pointwise_props(ctx, rounds):
+def pointwise_props(ctx, rounds, use_model=True):
     """values on a small grid with end points exactly on grid values: specification value, weight one, partitions, non-negativity,
-    zero at fcst = obs, immateriality of the finite replacement of infinite end points"""
+    zero at fcst = obs, immateriality of the finite replacement of infinite end points.  The specification value is the exact
+    oracle `orc_tw`; with the model available it is cross-checked against the proved specification functions (`c10_spec_point`)."""
     C = S()
     rng = ctx.rng
     grid = [Fr(k, 2) for k in range(-6, 7)]
@@ -353,8 +442,16 @@ def pointwise_props(ctx, rounds):
         return np.asarray(v.values, dtype=float)
 
     def spec(ends, alpha, v):
-        return [core.dec_nums(ctx.model("c10_spec_point", enc_list([enc_list([enc_num(e) for e in ends]), enc_num(f), enc_num(o), enc_num(alpha), enc_num(v)])))
-                for f, o in pts]
+        out = []
+        for f, o in pts:
+            want = orc_tw(tuple(ends), alpha, v, f, o)
+            if use_model:
+                m = core.dec_nums(ctx.model("c10_spec_point", enc_list([enc_list([enc_num(e) for e in ends]), enc_num(f), enc_num(o), enc_num(alpha), enc_num(v)])))
+                if m != want:
+                    ctx.tie_fail("harness oracle differs from the proved specification functions", {"ends": ends, "fcst": f, "obs": o, "alpha": alpha, "huber": v},
+                                 [str(x) for x in want], [str(x) for x in m])
+            out.append(want)
+        return out
 
     for _ in range(rounds):
         if not ctx.time_left():
@@ -564,7 +661,8 @@ def replacement_props(ctx, rounds):
 
 
 def coord_order_finding(ctx):
-    """results must not depend on the storage order of a shared coordinate (deterministic regression cases + recorded findings)"""
+    """corpus of repaired defects (5f9b684, 471de49, aeac0ee, 7c177ef): results must not depend on the storage order of a shared coordinate, and
+    an end-point pair may mix arrays and Python scalars; a regression is a violation"""
     C = S()
     f = xr.DataArray([1.0, 2.0, 3.0], dims=["b"], coords={"b": [2, 0, 1]})
     o = xr.DataArray([1.0, 0.5, 3.0], dims=["b"], coords={"b": [0, 1, 2]})
@@ -586,7 +684,7 @@ def coord_order_finding(ctx):
         if not same:
             ctx.violation(f"{name} depends on the storage order of a coordinate shared by fcst and obs",
                           {"fn": name, "fcst": gens.da_repr(f), "obs": gens.da_repr(o)}, str(want[1]), str(got[1]))
-    # per-dimension end-point arrays stored in another order than fcst / obs
+    # per-dimension end-point arrays stored in another order than fcst / obs (471de49)
     A = xr.DataArray([0.0, -1.0, 1.0], dims=["b"], coords={"b": [1, 2, 0]})
     B = A + 2
     A0, B0 = A.sel(b=f.b), B.sel(b=f.b)
@@ -602,20 +700,56 @@ def coord_order_finding(ctx):
             if not same:
                 ctx.violation(f"{name} depends on the storage order of the coordinate of a per-dimension end-point array",
                               {"fn": name, "fcst": gens.da_repr(f), "obs": gens.da_repr(o_same), "interval_where_one": [gens.da_repr(A), gens.da_repr(B)], "trapezoidal": pos},
-                              str(want[1]), str(got[1]), finding_key="tw-endpoint-array-coord-order" if got[0] == "err" and got[1] == "err:ValueError" else None)
+                              str(want[1]), str(got[1]))
+    # the shared dimension is missing from obs (or fcst) and the end points are stored in another order (aeac0ee)
+    f1 = xr.DataArray([-1.5, 1.0, -3.5], dims=["d"], coords={"d": [1, 0, 2]})
+    o1 = xr.DataArray(2.5)
+    A1 = xr.DataArray([-3.5, 1.0, 0.0], dims=["d"], coords={"d": [0, 1, 2]})
+    B1 = xr.DataArray([3.5, -2.5, 3.0], dims=["d"], coords={"d": [1, 0, 2]})
+    for name, args in (("tw_quantile_score", (0.25,)), ("tw_squared_error", ()), ("tw_absolute_error", ()), ("tw_expectile_score", (0.25,)), ("tw_huber_loss", (1.0,))):
+        fn = getattr(C, name)
+        for ff, oo in ((f1, o1), (o1, f1)):
+            want = core.call_impl(fn, ff, oo, *args, (A1.sel(d=f1.d), B1.sel(d=f1.d)))
+            got = core.call_impl(fn, ff, oo, *args, (A1, B1))
+            ctx.case(("endpoint-order-one-sided", name, ff is f1))
+            if not (want[0] == got[0] == "ok" and abs(float(want[1]) - float(got[1])) < 1e-12):
+                ctx.violation(f"{name} depends on the storage order of an end-point array along a dimension only one of fcst / obs has",
+                              {"fn": name, "fcst": gens.da_repr(ff), "obs": gens.da_repr(oo), "interval_where_one": [gens.da_repr(A1), gens.da_repr(B1)]},
+                              str(want[1]), str(got[1]))
     # (array, scalar) end-point pair
     Z = xr.DataArray([0.0, -1.0], dims=["z"], coords={"z": [0, 1]})
     want = core.call_impl(C.tw_quantile_score, f, o_same, 0.25, (Z, xr.DataArray(2.0)))
     got = core.call_impl(C.tw_quantile_score, f, o_same, 0.25, (Z, 2.0))
     ctx.case(("endpoint-array-scalar",))
     if not (want[0] == got[0] == "ok" and np.allclose(want[1].values, got[1].values)):
-        ctx.violation("tw_* with an (array, scalar) end-point pair", {"interval_where_one": "(DataArray over z, 2.0)"}, str(want[1])[:80], str(got[1]),
-                      finding_key="tw-endpoint-array-scalar" if got[0] == "err" and got[1] == "err:Other" else None)
+        ctx.violation("tw_* with an (array, scalar) end-point pair", {"interval_where_one": "(DataArray over z, 2.0)"}, str(want[1])[:80], str(got[1]))
 
 
 # ------------------------------------------------------------------------------------------
+def model_available(ctx):
+    b = getattr(ctx, "build", None) or {}
+    return "C10" not in (b.get("excluded_models") or []) and b.get("files", {}).get("model/C10.v", {}).get("ok", True)
+
+
+def run_without_model(ctx):
+    """used when a site no longer translates / the extracted model does not build: implementation-only predicates with the exact
+    rational oracle (Table B1 values, value of the five scores, weight one, partitions of unity, non-negativity, replacement of infinite
+    end points, integral of weight x murphy_score, guards, corpus of repaired defects)"""
+    table_b1_oracle(ctx)
+    coord_order_finding(ctx)
+    guard_probes(ctx)
+    replacement_props(ctx, ctx.n(6, 80))
+    integral_props(ctx, ctx.n(25, 400))
+    pointwise_props(ctx, ctx.n(3, 40), use_model=False)
+
+
 def run(ctx):
     rng = ctx.rng
+    if not model_available(ctx):
+        ctx.tie_fail("coq/model/C10.v does not build against the current source (a translator site is untranslatable or changed shape)",
+                     {"files": {k: v for k, v in (ctx.build.get("files") or {}).items() if not v.get("ok")}}, "-", "-")
+        return run_without_model(ctx)
+    table_b1_oracle(ctx)
     kernel_grids(ctx)
     coord_order_finding(ctx)
     guard_probes(ctx)
